@@ -28,6 +28,7 @@
 
 #include <cinttypes>
 #include <cmath>
+#include <memory>
 #include <string>
 #include <string_view>
 #include <unordered_map>
@@ -351,6 +352,11 @@ struct Outcome
 Outcome runParse(std::string_view text, const Limits &lim, bool wantCanon)
 {
   Outcome o;
+  // Parse from a heap block of exactly text.size() bytes (no terminator, no slack) so that ASan sees
+  // any read at or beyond the end of the input.
+  std::unique_ptr<char[]> exact(new char[text.size()]);
+  memcpy(exact.get(), text.data(), text.size());
+  text = std::string_view(exact.get(), text.size());
   try
   {
     auto r = Json::parse(text, lim.toIora());
@@ -525,20 +531,30 @@ std::vector<std::string> atoms(const std::string &body, bool escapes = true)
 struct Ctx
 {
   Ref ref;
-  std::unordered_map<std::string, std::string> tokSig; // token text -> "" (passes) or sig
+  std::unordered_map<std::string, std::string> tokSig; // kind + token text -> "" (does not fail alone) or sig
 };
 
-// "passes": accepted under default limits and equal to the reference (or reference does not judge)
-bool passesAlone(Ctx &cx, const std::string &text)
+// The two ways a valid text can fail; attribution probes always look for the *same* kind of failure
+// as the case being explained, so that one defect is not explained by another.
+enum class Fail
 {
-  RefResp r = cx.ref.ask(text);
-  if (r.kind != 'V')
-    return true;
-  Outcome o = runParse(text, Limits{}, true);
-  return o.ok && o.canon == r.canon;
+  Rejected,  // reference accepts, iora rejects
+  WrongValue // both accept, values differ
+};
+
+const Limits HUGE_LIMITS{size_t(1) << 40, size_t(1) << 40, size_t(1) << 40, size_t(1) << 40};
+
+bool failsAs(Fail kind, const std::string &text, const Limits &lim, const RefResp &ref)
+{
+  if (ref.kind != 'V')
+    return false;
+  Outcome o = runParse(text, lim, kind == Fail::WrongValue);
+  return kind == Fail::Rejected ? !o.ok : (o.ok && o.canon != ref.canon);
 }
 
-std::string atomSig(Ctx &cx, const std::string &a)
+bool failsAlone(Ctx &cx, Fail kind, const std::string &text) { return failsAs(kind, text, Limits{}, cx.ref.ask(text)); }
+
+std::string atomSig(Ctx &cx, Fail kind, const std::string &a)
 {
   unsigned char c = (unsigned char)a[0];
   char b[64];
@@ -547,7 +563,7 @@ std::string atomSig(Ctx &cx, const std::string &a)
   if (c == '\\')
   {
     // the \u family: generalise to the simplest failing member
-    if (!passesAlone(cx, "\"\\u0041\""))
+    if (failsAlone(cx, kind, "\"\\u0041\""))
       return "escape:\\u";
     bool upper = false;
     std::string low = a;
@@ -557,7 +573,7 @@ std::string atomSig(Ctx &cx, const std::string &a)
         upper = true;
         low[i] = char(low[i] - 'A' + 'a');
       }
-    if (upper && passesAlone(cx, "\"" + low + "\""))
+    if (upper && !failsAlone(cx, kind, "\"" + low + "\""))
       return "escape:\\u:upper-hex";
     long u = u4(a, 0);
     if (a.size() == 12)
@@ -610,23 +626,24 @@ std::string numberSig(Ctx &cx, const std::string &t)
   return s;
 }
 
-// sig of a scalar token that fails alone, "" if it passes alone
-std::string tokenSig(Ctx &cx, const std::string &tok, Tok::K k)
+// sig of a scalar token that fails alone (in the given way), "" if it does not
+std::string tokenSig(Ctx &cx, Fail kind, const std::string &tok, Tok::K k)
 {
-  auto it = cx.tokSig.find(tok);
+  std::string key = (kind == Fail::Rejected ? "R" : "W") + tok;
+  auto it = cx.tokSig.find(key);
   if (it != cx.tokSig.end())
     return it->second;
   std::string sig;
-  if (!passesAlone(cx, tok))
+  if (failsAlone(cx, kind, tok))
   {
     if (k == Tok::STRING)
     {
       std::string body = tok.size() >= 2 ? tok.substr(1, tok.size() - 2) : "";
       auto as = atoms(body);
       for (auto &a : as)
-        if (!passesAlone(cx, "\"" + a + "\""))
+        if (failsAlone(cx, kind, "\"" + a + "\""))
         {
-          sig = atomSig(cx, a);
+          sig = atomSig(cx, kind, a);
           break;
         }
       if (sig.empty())
@@ -634,7 +651,7 @@ std::string tokenSig(Ctx &cx, const std::string &tok, Tok::K k)
         sig = "string:combination";
         for (size_t i = 0; i < as.size() && i < 3; ++i)
         {
-          std::string one = atomSig(cx, as[i]);
+          std::string one = atomSig(cx, kind, as[i]);
           sig += (i ? "+" : ":") + one;
         }
         if (body.empty())
@@ -647,14 +664,8 @@ std::string tokenSig(Ctx &cx, const std::string &tok, Tok::K k)
       sig = "literal:" + esc(tok, 12);
   }
   if (cx.tokSig.size() < 500000)
-    cx.tokSig.emplace(tok, sig);
+    cx.tokSig.emplace(key, sig);
   return sig;
-}
-
-bool passesUnder(const std::string &text, const Limits &lim, const RefResp &ref)
-{
-  Outcome o = runParse(text, lim, true);
-  return o.ok && o.canon == ref.canon;
 }
 
 const char *relation(long measure, size_t limit)
@@ -663,26 +674,26 @@ const char *relation(long measure, size_t limit)
 }
 
 // Attribution of an accept / decode failure to the minimal failing feature of the case itself.
-std::string attributeParse(Ctx &cx, const std::string &text, const Limits &lim, const RefResp &ref)
+std::string attributeParse(Ctx &cx, Fail kind, const std::string &text, const Limits &lim, const RefResp &ref)
 {
-  if (!lim.isDefault() && passesUnder(text, Limits{}, ref))
+  if (!failsAs(kind, text, HUGE_LIMITS, ref))
   {
-    // fails only because of a configured limit: find which one, alone
-    Limits l1;
-    l1.d = lim.d;
-    if (l1.d != Limits{}.d && !passesUnder(text, l1, ref))
+    // fails only because of a limit: find which one, alone
+    Limits l = HUGE_LIMITS;
+    l.d = lim.d;
+    if (failsAs(kind, text, l, ref))
       return std::string("limit:depthMax:") + relation(ref.N, lim.d);
-    Limits l2;
-    l2.a = lim.a;
-    if (l2.a != Limits{}.a && !passesUnder(text, l2, ref))
+    l = HUGE_LIMITS;
+    l.a = lim.a;
+    if (failsAs(kind, text, l, ref))
       return std::string("limit:arrayItemsMax:") + relation(ref.maxArr, lim.a);
-    Limits l3;
-    l3.m = lim.m;
-    if (l3.m != Limits{}.m && !passesUnder(text, l3, ref))
+    l = HUGE_LIMITS;
+    l.m = lim.m;
+    if (failsAs(kind, text, l, ref))
       return std::string("limit:membersMax:") + relation(ref.memText, lim.m);
-    Limits l4;
-    l4.s = lim.s;
-    if (l4.s != Limits{}.s && !passesUnder(text, l4, ref))
+    l = HUGE_LIMITS;
+    l.s = lim.s;
+    if (failsAs(kind, text, l, ref))
       return std::string("limit:stringLengthMax:") + relation(ref.strBytes, lim.s);
     return "limit:combination";
   }
@@ -690,7 +701,7 @@ std::string attributeParse(Ctx &cx, const std::string &text, const Limits &lim, 
   for (auto &t : toks)
     if (t.k == Tok::STRING || t.k == Tok::NUMBER || t.k == Tok::LITERAL)
     {
-      std::string s = tokenSig(cx, text.substr(t.b, t.e - t.b), t.k);
+      std::string s = tokenSig(cx, kind, text.substr(t.b, t.e - t.b), t.k);
       if (!s.empty())
         return s;
     }
@@ -705,7 +716,7 @@ std::string attributeParse(Ctx &cx, const std::string &text, const Limits &lim, 
     }
     else
       stripped += text.substr(t.b, t.e - t.b);
-  if (!wsChars.empty() && passesAlone(cx, stripped))
+  if (!wsChars.empty() && !failsAlone(cx, kind, stripped))
   {
     std::sort(wsChars.begin(), wsChars.end());
     return "ws:" + esc(wsChars);
@@ -850,14 +861,14 @@ struct Eval
         ++r.distinct_nontrivial;
       if (!o.ok)
       {
-        std::string sig = attributeParse(cx, text, lim, ref);
+        std::string sig = attributeParse(cx, Fail::Rejected, text, lim, ref);
         viol("accepts-valid-within-limits", sig, kase,
              "RFC 8259-valid text within limits rejected: \"" + o.msg + "\" at offset " + std::to_string(o.offset) + "; reference value " +
                ref.canon.substr(0, 200));
       }
       else if (o.canon != ref.canon)
       {
-        std::string sig = attributeParse(cx, text, lim, ref);
+        std::string sig = attributeParse(cx, Fail::WrongValue, text, lim, ref);
         viol("decode-equals-reference", sig, kase, "expected " + ref.canon.substr(0, 300) + " got " + o.canon.substr(0, 300));
       }
     }
@@ -874,15 +885,15 @@ struct Eval
           snprintf(b, sizeof b, "limit+%s", measure - (long)limit >= 2 ? "2-or-more" : "1");
           return std::string(b);
         };
-        Limits l;
+        Limits l = HUGE_LIMITS;
         l.d = lim.d;
         if (ref.D > (long)lim.d && runParse(text, l, false).ok)
           sig = "depth:" + rel(ref.D, lim.d);
-        else if ((l = Limits{}, l.a = lim.a, ref.maxArr > (long)lim.a) && runParse(text, l, false).ok)
+        else if ((l = HUGE_LIMITS, l.a = lim.a, ref.maxArr > (long)lim.a) && runParse(text, l, false).ok)
           sig = "array-items:" + rel(ref.maxArr, lim.a);
-        else if ((l = Limits{}, l.m = lim.m, ref.memVal > (long)lim.m) && runParse(text, l, false).ok)
+        else if ((l = HUGE_LIMITS, l.m = lim.m, ref.memVal > (long)lim.m) && runParse(text, l, false).ok)
           sig = "members:" + rel(ref.memVal, lim.m);
-        else if ((l = Limits{}, l.s = lim.s, ref.strCps > (long)lim.s) && runParse(text, l, false).ok)
+        else if ((l = HUGE_LIMITS, l.s = lim.s, ref.strCps > (long)lim.s) && runParse(text, l, false).ok)
           sig = "string-length:" + rel(ref.strCps, lim.s);
         snprintf(b, sizeof b, " (depth %ld, longest array %ld, members %ld, longest string %ld code points)", ref.D, ref.maxArr, ref.memVal,
                  ref.strCps);
@@ -1269,7 +1280,7 @@ int main(int argc, char **argv)
     rep.bounds["texts"] = "see build/c13_cases.jsonl.summary.json: token grammar layers L1..L5 (oracle/c13_gen.py)";
     rep.bounds["robust_alphabet"] = "\" \\ u { [ , : - 1 e . t SP 00 80 ff";
     rep.bounds["robust_bytes_len_max"] = std::to_string(bytesLen);
-    rep.bounds["mutations"] = "every truncation and every single-byte substitution over the robustness alphabet of each text flagged mut=1";
+    rep.bounds["mutations"] = "every truncation and every single-byte substitution over the robustness alphabet of each text flagged mut=1, parsed under that case's limits";
     rep.bounds["tier"] = args.tier;
     Ctx cx;
     Eval ev{rep, cx};
@@ -1301,13 +1312,13 @@ int main(int argc, char **argv)
         if (f[2] == "1")
         {
           uint64_t sub = 1;
-          std::string hdr = "B " + Limits{}.str() + "\n";
+          std::string hdr = "B " + lim.str() + "\n";
           for (size_t n = 0; n < text.size(); ++n, ++sub)
             if (todo(base | sub))
             {
               std::string m = text.substr(0, n);
               sh.begin(base | sub, hdr + m);
-              ev.evalB(m, Limits{});
+              ev.evalB(m, lim);
               sh.end();
               ++rep.counters["mutants_truncation"];
             }
@@ -1319,7 +1330,7 @@ int main(int argc, char **argv)
               std::string m = text;
               m[i] = char(ALPHA[a]);
               sh.begin(base | sub, hdr + m);
-              ev.evalB(m, Limits{});
+              ev.evalB(m, lim);
               sh.end();
               ++rep.counters["mutants_substitution"];
             }
